@@ -24,6 +24,7 @@ structure H where
   lost : List Nat
   failAt : Nat
   dialFail : Nat
+  abortAt : Nat
   cut : Option Nat
   qs : Array Q
 
@@ -124,6 +125,17 @@ def outcome0 (sync : Bool) (h : H) : List String :=
   let qs := h.qs.toList
   match h.kind with
   | "raw" =>
+    -- a client that aborts behind request k (abort = k+1) observes the exchanges in front of it only: the
+    -- connection it leaves is an external close for the server (`c10_wire_prefix`, `c10_nothing_after_close`)
+    let qs := if h.abortAt > 0 then qs.take (h.abortAt - 1) else qs
+    let lines := fun (s : St Nat) => qs.mapIdx fun i q =>
+      if answeredIn s i then
+        answeredLine h.cid q (if 2 * (i + 1) == s.wire.length && s.closed then "1" else "0") "x"
+      else if partialIn s i && s.dropped then s!"R {q.rid} bad=truncated cb=x"
+      else s!"R {q.rid} none cb=x"
+    if h.abortAt > 0 then
+      lines (serve sync h.sched qs) ++ (h.qs.toList.drop (h.abortAt - 1)).map fun q => s!"R {q.rid} none cb=x"
+    else
     let s := match h.cut with
       | some i => serveCut sync i qs
       | none => serve sync h.sched qs
@@ -186,7 +198,8 @@ def outcome0 (sync : Bool) (h : H) : List String :=
 def allChecked (sync : Bool) (h : H) : Bool :=
   let qs := h.qs.toList
   match h.kind with
-  | "raw" => h.cut.isSome || (serve? sync h.sched qs).isSome
+  | "raw" => h.cut.isSome ||
+      (serve? sync h.sched (if h.abortAt > 0 then qs.take (h.abortAt - 1) else qs)).isSome
   | "nbc" => (serve? sync h.sched (qs.drop (min h.dialFail qs.length))).isSome
   | "nbx" => (serve? sync h.sched (qs.drop (min h.failAt qs.length + 1))).isSome
   | "std" | "nbcli" =>
@@ -254,8 +267,9 @@ partial def loop (h : IO.FS.Stream) (s : DS) : IO Unit := do
         let failAt := ((Drv.field ws "fail").bind String.toNat?).getD 0
         let cut := (Drv.field ws "cut").bind String.toNat?
         let dialFail := ((Drv.field ws "dialfail").bind String.toNat?).getD 0
+        let abortAt := ((Drv.field ws "abort").bind String.toNat?).getD 0
         IO.println "ok"
-        loop h { s with cur := some { cid, kind, sched, got, lost, failAt, dialFail, cut, qs := #[] } }
+        loop h { s with cur := some { cid, kind, sched, got, lost, failAt, dialFail, abortAt, cut, qs := #[] } }
       else
         IO.println "bad-op"
         loop h s
